@@ -182,32 +182,9 @@ func rulePagingArith(c *Ctx, rule, pkg string) {
 
 // noPathToAvoiding: no path from entry to target avoids all `avoid` instructions and all `allowed` edges.
 func noPathToAvoiding(fn *ssa.Function, target ssa.Instruction, avoid func(ssa.Instruction) bool, allowed func(from, to *ssa.BasicBlock) bool) bool {
-	seen := map[*ssa.BasicBlock]bool{}
-	var dfs func(b *ssa.BasicBlock) bool
-	dfs = func(b *ssa.BasicBlock) bool {
-		if seen[b] {
-			return false
-		}
-		seen[b] = true
-		for _, in := range b.Instrs {
-			if in == target {
-				return true
-			}
-			if avoid(in) {
-				return false
-			}
-		}
-		for _, s := range b.Succs {
-			if allowed(b, s) {
-				continue
-			}
-			if dfs(s) {
-				return true
-			}
-		}
-		return false
-	}
-	return !dfs(fn.Blocks[0])
+	ps := &pathSearch{fn: fn, start: fn.Blocks[0], stop: avoid, skipEdge: allowed,
+		target: func(in ssa.Instruction) bool { return in == target }}
+	return !ps.run()
 }
 
 func rulePagingDefaults(c *Ctx, rule, pkg string) {
